@@ -123,6 +123,7 @@ void WriteSolFile(fmt::CStringRef filename, const Solution &sol) {
   suf::Kind kinds[] = {suf::VAR, suf::CON, suf::OBJ, suf::PROBLEM};
   for (std::size_t i = 0, n = sizeof(kinds) / sizeof(*kinds); i < n; ++i)
     internal::WriteSuffixes(file, sol.suffixes(kinds[i]));
+  file.close();     // throw on a write error instead of ignoring it in the dtor
 }
 
 }  // namepace mp
